@@ -1,7 +1,7 @@
 """C06: exhaustive predicates over the bound tables (A7), clamp shapes, monotonicity-in-delta typing of the small-sample
 binomial branches, HLL / CPC bound formula shapes."""
 import math
-from astu import C, ctxt, gt_pair, eq_const, strip, strip_all, walk, walkp, txt, short, is_this_field, field_name, stmts_of, always_throws, functions_by, local_decls
+from astu import C, ctxt, gt_pair, eq_const, reach, reach_txt, ctext, strip, strip_all, walk, walkp, txt, short, is_this_field, field_name, stmts_of, always_throws, functions_by, local_decls
 from vlib.core import ob
 
 
